@@ -57,9 +57,32 @@ func (in *Interp) intSort(b *types.Basic) smt.Sort {
 	return smt.BVSort(intWidth(b))
 }
 
+// typeRange returns the value range of an integer type. The results are shared: callers must not modify them.
 func typeRange(b *types.Basic) (lo, hi *big.Int) {
 	w := intWidth(b)
+	k := w
 	if isSigned(b) {
+		k = -w
+	}
+	if r, ok := typeRanges[k]; ok {
+		return r[0], r[1]
+	}
+	return computeRange(w, isSigned(b))
+}
+
+var typeRanges = func() map[int][2]*big.Int {
+	m := map[int][2]*big.Int{}
+	for _, w := range []int{8, 16, 32, 64} {
+		lo, hi := computeRange(w, false)
+		m[w] = [2]*big.Int{lo, hi}
+		lo, hi = computeRange(w, true)
+		m[-w] = [2]*big.Int{lo, hi}
+	}
+	return m
+}()
+
+func computeRange(w int, signed bool) (lo, hi *big.Int) {
+	if signed {
 		hi = new(big.Int).Lsh(big.NewInt(1), uint(w-1))
 		lo = new(big.Int).Neg(hi)
 		hi.Sub(hi, big.NewInt(1))
@@ -832,7 +855,14 @@ func (in *Interp) conv(dst, src types.Type, x value) value {
 				return in.mkStr(bs)
 			case *smt.Term:
 				if !xv.IsConst() {
-					in.unsupported("string(symbolic rune)")
+					// a symbolic rune: supported when it is ASCII under the path condition (one byte, no encoding)
+					sb := basicOf(us)
+					ascii := c.And(in.intBinop(token.GEQ, sb, sb, xv, in.intConst(sb, big.NewInt(0))).(*smt.Term),
+						in.intBinop(token.LSS, sb, sb, xv, in.intConst(sb, big.NewInt(0x80))).(*smt.Term))
+					if !in.branch(ascii, "string(rune)-ascii") {
+						in.unsupported("string(symbolic non-ASCII rune)")
+					}
+					return in.mkStr([]*smt.Term{in.convInt(xv, sb, basicOf(types.Typ[types.Uint8]))})
 				}
 				return string(rune(in.termInt(xv, src).Int64()))
 			}
